@@ -319,12 +319,50 @@ def reader_obligations(eng, configs=CONFIGS, methods=("_read_next", "read"), gho
         res.append(("consumes at least one octet (termination measure of read's loop)", z3.And(v["pl"] <= old["pl"] - 1, v["pl"] >= 0)))
         res.append(("ghost stream length unchanged", z3.And(v["gt"] == old["gt"], v["gle"] == old["gle"])))
         return res
+    def transition_goals(cfg, in_frame, old, st1, rd, val):
+        """exact transition of the reader on the next input octet c, case by case (this is what makes the step a function of
+        (frame octets, raw octets, pending escape, mode) and c only: C06; and what the clean-stream / resync lemmas of C02 / C16 use)"""
+        stuffing, abort = cfg; c = old["c"]; flag = c == 0x7E
+        v = reader_view(st1, rd); fr1 = v["fr"]; res = z3.simplify(to_bool(val)); is_true = z3.is_true(res)
+        hunt1 = z3.BoolVal(fr1 is None)
+        def frame_is(n_expr, rn_expr):
+            if fr1 is None: return z3.BoolVal(False)
+            d1 = st1.getf(fr1, "_frame_data"); return z3.And(d1.n == n_expr, v["raw"].n == rn_expr)
+        goals = []
+        if not in_frame:
+            goals.append(("T1 hunt mode, not a flag: stays in hunt mode, nothing completes", z3.Implies(z3.Not(flag), z3.And(hunt1, z3.BoolVal(not is_true)))))
+            goals.append(("T2 hunt mode, flag: a new empty frame starts", z3.Implies(flag, z3.And(frame_is(0, 0), z3.BoolVal(not is_true)))))
+            return goals
+        n, rn, cp, arr, raw = old["n"], old["rn"], old["cp"], old["arr"], old["raw"]
+        hcs = z3.And(cp != -1, n > cp + 2)
+        aborted = z3.And(z3.BoolVal(abort), rn > 1, raw[rn - 1] == 0x7D)
+        exp_len = z3.And(n >= 2, z3.BV2Int(S.len_field(arr)) == n)
+        goals.append(("T3 flag on an empty frame: the frame restarts (inter-frame fill)", z3.Implies(z3.And(flag, n == 0), z3.And(frame_is(0, 0), z3.BoolVal(not is_true)))))
+        goals.append(("T4 flag before the header check sequence is complete: discard, hunt mode", z3.Implies(z3.And(flag, n > 0, z3.Not(hcs)), z3.And(hunt1, z3.BoolVal(not is_true)))))
+        goals.append(("T5 abort sequence (escape octet directly before the flag, abort detection on): discard, hunt mode", z3.Implies(z3.And(flag, n > 0, hcs, aborted), z3.And(hunt1, z3.BoolVal(not is_true)))))
+        if stuffing:
+            goals.append(("T6 octet stuffing: any other flag completes the frame, octets unchanged", z3.Implies(z3.And(flag, n > 0, hcs, z3.Not(aborted)), z3.And(z3.BoolVal(is_true), frame_is(n, rn)))))
+        else:
+            goals.append(("T7 no stuffing: a flag at the announced length completes the frame, octets unchanged", z3.Implies(z3.And(flag, n > 0, hcs, z3.Not(aborted), exp_len), z3.And(z3.BoolVal(is_true), frame_is(n, rn)))))
+            goals.append(("T8 no stuffing: a flag elsewhere is frame data (over-long frames are discarded)", z3.Implies(z3.And(flag, n > 0, hcs, z3.Not(aborted), z3.Not(exp_len)),
+                          z3.And(z3.BoolVal(not is_true), z3.If(n + 1 > 2047, hunt1, frame_is(n + 1, rn + 1))))))
+        if stuffing:
+            n_after = z3.If(z3.And(z3.Not(old["esc"]), c == 0x7D), n, n + 1)
+            goals.append(("T9 any other octet is un-stuffed into the frame (over-long frames are discarded)", z3.Implies(z3.Not(flag), z3.And(z3.BoolVal(not is_true), z3.If(n_after > 2047, hunt1, frame_is(n_after, rn + 1))))))
+        else:
+            goals.append(("T9 any other octet is appended to the frame (over-long frames are discarded)", z3.Implies(z3.Not(flag), z3.And(z3.BoolVal(not is_true), z3.If(n + 1 > 2047, hunt1, frame_is(n + 1, rn + 1))))))
+        if fr1 is not None and not is_true:
+            # in a frame afterwards and not restarted: the raw octets grew by exactly c (content is then fixed by the invariant octets == unstuff(raw))
+            goals.append(("T10 raw octets grow by the consumed octet", z3.Implies(v["raw"].n == rn + 1, v["raw"].at(rn) == c)))
+        return goals
     if "_read_next" in methods:
         for cfg in configs:
             for in_frame in (False, True):
                 st = State(); rd, buf = mk_reader(st, cfg, in_frame, eng=eng); assume_inv(st, rd)
                 v0 = reader_view(st, rd); st.pc.append(v0["pl"] >= 1)
-                old = {"pl": v0["pl"], "gt": v0["gt"], "gle": v0["gle"]}
+                old = {"pl": v0["pl"], "gt": v0["gt"], "gle": v0["gle"], "c": G[v0["gp"]], "esc": v0["esc"], "rn": v0["raw"].n, "raw": v0["raw"].arr}
+                if in_frame:
+                    d0 = st.getf(v0["fr"], "_frame_data"); old.update(n=d0.n, arr=d0.arr, cp=S.CP(d0.arr, d0.n))
                 ctx = Ctx(eng, mod, cls, R + "_read_next", root_name=f"{R}_read_next[{cfg_label(cfg, in_frame)}]"); ctx.verifying = R + "_read_next"
                 st.locals = {"self": rd}
                 n0 = len(ctx.obls)
@@ -334,6 +372,7 @@ def reader_obligations(eng, configs=CONFIGS, methods=("_read_next", "read"), gho
                     if flow == RAISE:
                         ctx.oblige(st1, f"raises:nothing escapes ({val.exc})", z3.BoolVal(False), fn_rn); continue
                     for name, g in post_read_next(st1, rd, val, old): ctx.oblige(st1, f"post:{name}", g, fn_rn)
+                    for name, g in transition_goals(cfg, in_frame, old, st1, rd, val): ctx.oblige(st1, f"post:{name}", g, fn_rn)
                 for o in ctx.obls[n0:]: o.meta.update(replay="replay_read_next", witness=reader_witness(eng, cfg, in_frame))
                 obls += ctx.obls
     # call-site form of _read_next for read(): assert pre, havoc the reader, assume post
